@@ -1257,6 +1257,11 @@ func (e *Exec) index(s *State, x *ssa.Index) Value {
 	case *types.Basic: // string
 		str := e.val(s, x.X).(*Node)
 		e.bounds(s, And(e.ile(e.idx(0), idx), e.ilt(idx, e.strLen(str))), x.Pos(), "string index out of range")
+		if nativeStrings {
+			v := App("str.to_code", "Int", App("str.at", "String", str, idx))
+			s.assume(e.ar.inRange(v, types.Typ[types.Uint8]))
+			return v
+		}
 		v := Select(e.strChars(str), idx)
 		if e.mode == ModeInt {
 			s.assume(e.ar.inRange(v, types.Typ[types.Uint8]))
